@@ -438,7 +438,13 @@ Definition disc_kind_ok (ik : bool) (t : schema) : bool :=
   | SString _ _ _ | SEnumStr _ _ => negb ik
   | _ => false
   end.
+(* validateSubtypeDiscriminatorInlineFields skips a member whose namespace has not been applied yet (a
+   *RefSchema that is not ObjectReady, repo commit "one-of ApplyNamespace skips members whose namespace has
+   not been applied yet"): it is checked when that namespace is applied *)
+Definition member_pending (m : schema) : bool :=
+  match m with SRef _ ns _ => negb (String.eqb ns "") | _ => false end.
 Definition member_ok (objs : objtab) (ik : bool) (field : string) (inlined : bool) (m : schema) : bool :=
+  member_pending m ||
   match member_props objs m with
   | None => false
   | Some ps =>
@@ -604,7 +610,14 @@ Definition wf_member_props (e : env) (m : schema) : option (list (string * prope
   | SScope os root => match alookup root os with Some (SObject _ _ ps) => Some ps | _ => None end
   | _ => None
   end.
+(* a member that refers to a namespace which is not applied in e: not checked yet (member_pending) *)
+Definition member_pending_in (e : env) (m : schema) : bool :=
+  match m with
+  | SRef id ns _ => negb (String.eqb ns "") && match resolve e id ns with None => true | Some _ => false end
+  | _ => false
+  end.
 Definition wf_member (e : env) (ik : bool) (field : string) (inlined : bool) (m : schema) : bool :=
+  member_pending_in e m ||
   match wf_member_props e m with
   | None => false
   | Some ps =>
